@@ -170,9 +170,11 @@ let main_exec () =
   let check_ir_shape tag n =
     incr stage_checks;
     let top_ok = (match n with NCat l -> (match List.rev l with NGoal :: _ -> true | _ -> false) | NGoal -> true | NCharSet [] -> true | _ -> false) in
-    if not (top_ok && ir_wf (ir_top n) && brackets_wf (ir_top n)) then begin
+    (* ... and the invariant of the optimizer theorems (IRShape.qok): loop bounds ordered, a loop's group range = the
+       groups of its body, character sets of at most four members, bracket sets well-formed *)
+    if not (top_ok && ir_wf (ir_top n) && brackets_wf (ir_top n) && qok n) then begin
       incr mism;
-      Printf.printf "MISMATCH stage=IRshape-%s case=%s pat=%s flags=%s detail=top_is_cat_goal:%b,ir_wf:%b,brackets_wf:%b\n" tag !cur_id !cur_pat !cur_flags top_ok (ir_wf (ir_top n)) (brackets_wf (ir_top n))
+      Printf.printf "MISMATCH stage=IRshape-%s case=%s pat=%s flags=%s detail=top_is_cat_goal:%b,ir_wf:%b,brackets_wf:%b,qok:%b\n" tag !cur_id !cur_pat !cur_flags top_ok (ir_wf (ir_top n)) (brackets_wf (ir_top n)) (qok n)
     end in
   let ir_eval_limit = (try int_of_string (Sys.getenv "RV_IR_EVALS") with Not_found -> 4000) in
   let ir_fuel = nat_of_int_big 400 in
@@ -257,8 +259,8 @@ let main_exec () =
        when the program has a prefilter the two engines are compared on its prefilter-free twin (btx/pkx) *)
     if find "btx" <> None then c05 "btx" "pkx" else begin c05 "bt8" "pk8"; c05 "bta" "pka" end;
     List.iter (fun r -> if r.status = "panic" then viol "C06" (Printf.sprintf "%s:panic" r.engine)) g;
-    (* C09: the harness polls every iterator again after it returned None; a match yielded then is recorded at offset 999999999 *)
-    List.iter (fun r -> if List.exists (fun (s, _, _) -> s = 999999999) r.ms then viol "C09" (Printf.sprintf "%s:yields-again-after-None" r.engine)) g;
+    (* C09: the harness polls every iterator again after it returned None; a match yielded then is recorded at offset 99999 *)
+    List.iter (fun r -> if List.exists (fun (s, _, _) -> s = 99999) r.ms then viol "C09" (Printf.sprintf "%s:yields-again-after-None" r.engine)) g;
     (match find "bt8", find "pk8" with
      | Some a, Some b -> if both_ok a b && not (same a b) then viol "C02" (Printf.sprintf "bt8=%s/pk8=%s" (show_matches a.ms) (show_matches b.ms))
      | _ -> ());
@@ -348,6 +350,10 @@ let main_exec () =
         (* the haystack hypothesis of the UTF-8 theorems: stepping right never overshoots the end *)
         if not (walk_ok ix_utf8 !hay (nat_of_int (List.length !hay + 2)) (nat_of_int !start)) then begin
           incr mism; Printf.printf "MISMATCH stage=haystack case=%s hay=%s start=%d detail=walk_ok:false\n" !cur_id hx !start end;
+        (* the text hypotheses of the optimizer theorems, at every position of an all-ASCII haystack (where every
+           position is a character boundary; on other text they hold at the boundaries only, see DESIGN) *)
+        if List.for_all (fun b -> int_of_n b < 128) !hay && not (text_ok_b ix_utf8 !hay) then begin
+          incr mism; Printf.printf "MISMATCH stage=haystack case=%s hay=%s start=%d detail=text_ok:false\n" !cur_id hx !start end;
         (* ... and the prefilter hypothesis of the C04 theorem, for the start predicate of this program *)
         (match !hdr with
          | Some (_, _, _, sp) ->
